@@ -137,6 +137,9 @@ func runC10(r *mon.Run) {
 		}
 	})
 
+	// the same with a degenerate (never failing) process-wide system entropy stream
+	runDegradedEntropy(r, "c10", r.N(60, 1500), "ecdh", "pubkey", "sm")
+
 	// --- public-key constructors -------------------------------------------------------------
 	pool := knownPointPool(r.Seed, 8)
 	r.Each("c10/public-ctors", r.N(20000, 800000), func(w *mon.W, i int) {
